@@ -1236,11 +1236,23 @@ def gl13(prog):
                     kte, body = h.terms, h.terms.ret
             key = "%s:GL13:key-denotes-the-triple" % f.impl_self
             errs, und, n_alt = [], [], 0
-            for leaf, facts in alts(kte, body):
+            all_alts = list(alts(kte, body))
+            for leaf, facts in all_alts:
                 leaf = strip(leaf)
                 if not (isinstance(leaf, tuple) and leaf and leaf[0] == "agg" and leaf[1] == "tuple" and len(leaf[4]) == 3):
                     und.append("?a key alternative is not a triple: %s" % show(leaf)[:60])
                     continue
+                shapes = set()
+                for l2, _ in all_alts:
+                    l2 = strip(l2)
+                    shapes.add(tuple(_role(c, roles) for c in l2[4]) if isinstance(l2, tuple) and l2 and l2[0] == "agg" and len(l2[4]) == 3 else None)
+                if len(shapes) == 1:
+                    cs_ = [_role(c, roles) for c in leaf[4]]
+                    if all(c is not None and not c[1] for c in cs_) and sorted(c[0] for c in cs_) == ["f", "g", "h"]:
+                        # one unconditional permutation of the operands: distinct triples keep distinct keys, nothing is
+                        # merged (that lookup and insertion use the same key is GL8's business)
+                        n_alt += 1
+                        continue
                 comps = [_role(c, roles) for c in leaf[4]]
                 if any(c is None for c in comps):
                     und.append("?a key component is not an operand of the triple: %s" % show(leaf)[:60])
